@@ -142,10 +142,21 @@ func (r *rdbdriver) findMapInSortedData(domain, mtype []byte, context Context) (
 			break
 		}
 
+		// length of the labels of the name we have just looked for
+		curLen := len(k) - prefixLen - 1 - len(suffix)
+		if curLen == 0 {
+			// it was the root: nothing encloses it
+			break
+		}
 		foundLabel := foundKey[prefixLen : len(foundKey)-1]
 		length := findCommonLongestPrefix(reversedZone, foundLabel)
-		if length == 0 {
-			break
+		if length >= curLen {
+			// the closest key is the wildcard of that very name, which does not
+			// apply to the name itself: continue with its parent
+			length = 0
+			for length+int(reversedZone[length])+1 < curLen {
+				length += int(reversedZone[length]) + 1
+			}
 		}
 
 		// k already has necessary data - we just need to cut it at proper point
